@@ -71,7 +71,8 @@ func (x *Unit) run() {
 		}
 		return true
 	})
-	x.entry.alloc = st.alloc
+	// boxed locals are objects of this call: allocated after entry (the frame does not cover them, parameters cannot alias them)
+	allocAfterBoxing := st.alloc
 	// receiver and parameters
 	bindParam := func(v *types.Var, isRecv bool) {
 		if v == nil {
@@ -79,7 +80,9 @@ func (x *Unit) run() {
 		}
 		val := Val{x.fresh(v.Name(), x.u.SortOf(v.Type())), v.Type()}
 		x.inputs = append(x.inputs, val.S)
+		st.alloc = alloc0
 		x.assume(st, x.typeInv(st, val, 0))
+		st.alloc = allocAfterBoxing
 		if isRecv {
 			if _, ok := under(v.Type()).(*types.Pointer); ok {
 				x.assume(st, Cmp(">", val.T, IntLit(0)))
